@@ -274,12 +274,76 @@ pub fn replay_index(args: &Args) -> Option<u64> {
         .or(args.only)
 }
 
+/// Sequences of registrations through the client into the library's own in-memory store (and its
+/// Arc<Mutex> wrapper), with user ids repeating within an RP and every residentKey preference: after
+/// each success the store holds what it held before plus exactly the new credential.
+fn memory_store_sequences(rep: &mut Report, args: &Args) {
+    use passkey_authenticator::MemoryStore;
+    use passkey_client::{Client, DefaultClientData};
+    use passkey_types::webauthn::{AuthenticatorSelectionCriteria, ResidentKeyRequirement, UserVerificationRequirement};
+    let only = replay_index(args);
+    let n = args.size(80, 1500) as u64;
+    for k in 0..n {
+        let index = 30_000_000 + k;
+        if only.map_or(false, |o| o != index) {
+            continue;
+        }
+        let mut rng = Rng::derive(args.seed, "c02mem", k);
+        let log = crate::collab::Log::new();
+        let uv = crate::collab::RecUv::new(log.clone(), crate::collab::UvOutcome::Check { presence: true, verification: true }, Some(true));
+        let cfg = crate::util::AuthCfg { counters: rng.bool(), id_len: Some(*rng.pick(&[16u8, 32, 64])), ..Default::default() };
+        let wrapped = rng.bool();
+        let steps = rng.range(2, 5);
+        let rps = ["example.com", "example.org"];
+        let users: [&[u8]; 3] = [b"alice", b"bob", b"\x00"];
+        let mut held: Vec<Vec<u8>> = Vec::new();
+        macro_rules! drive {
+            ($store:expr, $ids:expr) => {{
+                let mut client = Client::new_with_custom_tld_provider(crate::util::mk_auth($store, uv.clone(), cfg), crate::collab::RecTld::default_list(log.clone()));
+                for step in 0..steps {
+                    rep.eval();
+                    let rp = *rng.pick(&rps);
+                    let user = *rng.pick(&users);
+                    let rk = *rng.pick(&[None, Some(ResidentKeyRequirement::Discouraged), Some(ResidentKeyRequirement::Preferred), Some(ResidentKeyRequirement::Required)]);
+                    let case = json!({"index": index, "part": "memory-store-sequence", "store": if wrapped {"Arc<Mutex<MemoryStore>>"} else {"MemoryStore"}, "step": step, "rp": rp, "user_id": hex_short(user), "residentKey": rk.map(|r| format!("{r:?}")), "held_before": held.len()});
+                    let mut opts = crate::util::creation_options(Some(rp), user, "n", &rng.bytes(16), vec![crate::util::pk_param(coset::iana::Algorithm::ES256)]);
+                    opts.public_key.authenticator_selection = Some(AuthenticatorSelectionCriteria { authenticator_attachment: None, resident_key: rk, require_resident_key: rng.chance(1, 4), user_verification: UserVerificationRequirement::Preferred });
+                    let origin = crate::util::url(&format!("https://{rp}"));
+                    rep.nontrivial(fnv_str(&format!("mem|{wrapped}|{step}|{rp}|{}|{rk:?}|{}", user.len(), held.len().min(4))));
+                    match catch(|| crate::exec::block_on(client.register(&origin, opts, DefaultClientData))) {
+                        Err((sig, d)) => rep.violate(&format!("memory store sequence: register {sig}"), d, case),
+                        Ok(Err(_)) => rep.count("memory_sequence_refused"),
+                        Ok(Ok(c)) => {
+                            rep.count("memory_sequence_registered");
+                            let now: Vec<Vec<u8>> = $ids(&client);
+                            let new_id = c.raw_id.to_vec();
+                            let missing: Vec<String> = held.iter().filter(|h| !now.contains(h)).map(|h| hex_short(h)).collect();
+                            if !missing.is_empty() {
+                                rep.violate("memory store sequence: a successful registration removed credentials the store held before", format!("missing afterwards: {missing:?}"), case.clone());
+                            }
+                            if !now.contains(&new_id) || now.len() != held.len() + 1 {
+                                rep.violate("memory store sequence: a successful registration did not add exactly one credential", format!("{} before, {} after, new id present: {}", held.len(), now.len(), now.contains(&new_id)), case.clone());
+                            }
+                            held = now;
+                        }
+                    }
+                }
+            }};
+        }
+        if wrapped {
+            drive!(std::sync::Arc::new(tokio::sync::Mutex::new(MemoryStore::new())), |c: &Client<std::sync::Arc<tokio::sync::Mutex<MemoryStore>>, crate::collab::RecUv, crate::collab::RecTld>| c.authenticator().store().try_lock().map(|g| g.keys().cloned().collect::<Vec<_>>()).unwrap_or_default());
+        } else {
+            drive!(MemoryStore::new(), |c: &Client<MemoryStore, crate::collab::RecUv, crate::collab::RecTld>| c.authenticator().store().keys().cloned().collect::<Vec<_>>());
+        }
+    }
+}
+
 pub fn run(args: &Args) -> Report {
     let mut rep = Report::new(
         "C02",
         &args.tier,
         args.seed,
-        "seeded histories of 1-20 ceremonies (registration-heavy) into one store over generated configurations (id length 0..255 requested, counters on/off, hmac config, store capability); distinct by request shape (challenge length, user id length, algorithm list, client-data mode, id-length config, counter config, RP-id relation, port) and position in the history; non-trivial when the registration succeeded and every oracle clause was evaluated, or it is the specified failure (no supported algorithm)",
+        "seeded histories of 1-20 ceremonies (registration-heavy) into one store over generated configurations (id length 0..255 requested, counters on/off, hmac config, store capability), plus sequences of 2-5 client registrations into the library's in-memory store with repeating user ids and every residentKey preference; distinct by request shape (challenge length, user id length, algorithm list, client-data mode, id-length config, counter config, RP-id relation, port) and position in the history; non-trivial when the registration succeeded and every oracle clause was evaluated, or it is the specified failure (no supported algorithm)",
     );
     rep.assumptions.push("origins are supplied as origins (scheme, host, optional port)".into());
     rep.assumptions.push("freshness of credential ids = uniqueness within the history and not a constant pattern".into());
@@ -294,6 +358,9 @@ pub fn run(args: &Args) -> Report {
             seen.retain(|k, _| *k + 2 >= h);
         }
     });
+    if replay_index(args).map_or(true, |o| (30_000_000..40_000_000).contains(&o)) {
+        memory_store_sequences(&mut rep, args);
+    }
     if replay_index(args).is_none() && (rep.get("register_ok") == 0 || rep.get("make_ok") == 0 || rep.get("unsupported_list_failed") == 0) {
         rep.inconclusive("no successful client registration / CTAP registration / unsupported-list failure observed".into());
     }
